@@ -167,12 +167,30 @@ func raceSession(rng *rand.Rand, stats map[string]int64) (vs []Violation, conclu
 			ponder = ponderOn
 			selfEnding = true
 			goLine = fmt.Sprintf("go ponder depth %d", 1+rng.IntN(4))
+			if rng.IntN(2) == 0 {
+				// a finished game: the search returns before anything else can happen
+				send("position fen " + pick(rng, []string{
+					"R6k/6pp/8/8/8/8/8/K7 b - - 0 1",
+					"rnb1kbnr/pppp1ppp/8/4p3/6Pq/5P2/PPPPP2P/RNBQKBNR w KQkq - 1 3",
+					"7k/5Q2/6K1/8/8/8/8/8 b - - 0 1",
+				}))
+			}
 		}
-		send(goLine)
+		hit := false
+		if ponder && selfEnding && rng.IntN(2) == 0 {
+			// go and ponderhit leave the GUI in one write: the ponderhit is already
+			// waiting when the driver starts the search
+			log.add("IN", goLine)
+			log.add("IN", "ponderhit")
+			io.WriteString(inW, goLine+"\nponderhit\n")
+			hit = true
+			stats["fault_ponderhit_at_search_end"]++
+		} else {
+			send(goLine)
+		}
 		searches++
 		stats["race_searches"]++
-		hit := false
-		if ponder && selfEnding && rng.IntN(3) != 0 {
+		if ponder && selfEnding && !hit && rng.IntN(2) == 0 {
 			nap(pick(rng, []int{0, 0, 0, 20, 200}))
 			send("ponderhit")
 			hit = true
